@@ -73,6 +73,10 @@ TNext ==
                   ELSE [Project(lay, cur, g2) EXCEPT !.ok = FALSE, !.err = r.err]
            new == OpLabels(lay, T0, e.op, e.arg, cn2, g2, pobs, o)
                   \cup (IF SameAsModel(m, o) THEN {} ELSE {"DRIFT." \o e.op})
+                  \* the documentation string of the captured cells is the function's own,
+                  \* character by character (white space inside the literal included)
+                  \cup (IF e.op = "capture" /\ o.ok /\ "docsame" \in DOMAIN o /\ ~o.docsame
+                        THEN {"C20.BehavesLikeFunction"} ELSE {})
                   \cup (IF e.op = "capture" /\ Hdr.origvals # ValsOf(lay, T0, 7)
                         THEN {"MACH.OracleMismatch"} ELSE {})
            known == {v[1] : v \in viol}
